@@ -59,6 +59,9 @@ func mustFail(c *fw.Case, o Outcome, what string, det map[string]any) bool {
 // followUp runs one battery query on the polluted input and on a pristine copy.
 func followUp(c *fw.Case, used, pristine map[string]any, det map[string]any) bool {
 	sql := followUps[c.Intn(len(followUps))]
+	if failed, _ := det["sql"].(string); strings.Contains(failed, "JOIN") && c.Chance(0.7) {
+		sql = joinFollowUps[c.Intn(len(joinFollowUps))]
+	}
 	a := Run(used, sql)
 	b := Run(val.CopyMap(pristine), sql)
 	c.Feature("followup")
@@ -217,6 +220,12 @@ func c19TypeErr(c *fw.Case) {
 				if len(r["arr"].([]any)) == 0 {
 					r["arr"] = []any{map[string]any{"e": 1.0, "f": "p"}}
 				}
+			}
+			if strings.HasPrefix(q.name, "badrow.") {
+				if len(d.t.Rows) < 3 {
+					continue
+				}
+				d.t.Rows[1+c.Intn(len(d.t.Rows)-1)]["obj"] = "n/a"
 			}
 			d.doc = DocOf(d.t, d.u)
 			break
